@@ -102,9 +102,9 @@ class Args:
     def vecs(self, name, pts, ints=False):
         return [self.vec(f"{name}{i}", p, ints) for i, p in enumerate(pts)]
 
-    def arr(self, name, a, ints=False):
+    def arr(self, name, a, ints=False, dtype=None):
         if name not in self.objs:
-            self.objs[name] = np.array(a, dtype=int if ints else float)
+            self.objs[name] = np.array(a, dtype=np.dtype(dtype) if dtype else (int if ints else float))
             self.snap[name] = np.array(a, dtype=float).tolist()
             self.read[name] = lambda o: np.asarray(o, dtype=float).tolist()
         return self.objs[name]
@@ -201,11 +201,23 @@ def two_calls(fn):
     first result, and (when the results do not legitimately share the caller's own Vec objects) editing the second
     result must not change the first."""
     def run(case, ctx):
+        import mouette as M
         gen = str(case.get("gen", "?"))
+        for k, v in (case.get("config") or {}).items():       # library-wide switches of this case (the runner restores them)
+            setattr(M.config, k, v)
+        cfg = {k: getattr(M.config, k) for k in CONFIG_SWITCHES}
+
+        def check_config(when):
+            now = {k: getattr(M.config, k) for k in CONFIG_SWITCHES}
+            ok = ctx.check(now == cfg, gen + ":config-changed", f"{when}: library-wide config switches changed from {cfg} to {now}")
+            for k, v in cfg.items():
+                setattr(M.config, k, v)
+            return ok
         A = Args()
         res1, res2 = [], []
         fn(case, RecordingCtx(ctx, res1), A)
         A.check_unchanged(ctx, gen)
+        check_config("after the first call")
         edited = sum(edit_in_place(m) for m in res1)
         if edited:
             ctx.label("first-result-edited-in-place")
@@ -218,10 +230,21 @@ def two_calls(fn):
             if A.changed():
                 ctx.discard("aliased arguments could not be restored")
                 return
+        # a call of the same generator with an inadmissible argument (expected to raise) must not leave anything behind
+        bad = POISON.get(gen)
+        if bad is not None:
+            ctx.label("failed-call-in-between")
+            try:
+                bad(M, A)
+            except Exception:
+                pass
+            A.check_unchanged(ctx, gen)
+            check_config("after a call with an inadmissible argument (which may raise)")
         snap1 = [read_vertices(m) for m in res1]
         A.round = 2
         fn(case, RecordingCtx(ctx, res2, "[second call of the generator in this case, same argument objects, after the first result was edited in place] "), A)
         A.check_unchanged(ctx, gen)
+        check_config("after the second call")
         now1 = [read_vertices(m) for m in res1]
         ctx.check(now1 == snap1, gen + ":results-share-state", "the second call of the generator changed the vertices of the mesh returned by the first call")
         if not aliased and res1 and res2:
@@ -231,6 +254,49 @@ def two_calls(fn):
                       "editing the vertices of the second returned mesh in place changed the mesh returned by the first call (results share coordinate arrays)")
     run.__name__ = fn.__name__
     return run
+
+
+CONFIG_SWITCHES = ("complete_edges_from_faces", "complete_faces_from_cells", "export_edges_in_obj", "sort_neighborhoods",
+                   "display_duplicate_attribute_warning")
+
+
+def _some_vec(A, M):
+    for o in A.objs.values():
+        if isinstance(o, M.Vec):
+            return o
+    return M.Vec(0., 0., 0.)
+
+
+def _some_obj(A, name, M):
+    return A.objs.get(name)
+
+
+# one call per generator with an inadmissible argument (most of them raise inside the generator; none is required to)
+POISON = {
+    "tetrahedron": lambda M, A: M.procedural.tetrahedron(_some_vec(A, M), _some_vec(A, M), "x", _some_vec(A, M)),
+    "hexahedron": lambda M, A: M.procedural.hexahedron(*([_some_vec(A, M)] * 7), "x", colored=True),
+    "axis_aligned_cube": lambda M, A: M.procedural.axis_aligned_cube(colored="x", triangulate=2.5, volume=True),
+    "hexahedron_4pts": lambda M, A: M.procedural.hexahedron_4pts(_some_vec(A, M), _some_vec(A, M), "x", _some_vec(A, M), volume=True),
+    "octahedron": lambda M, A: M.procedural.octahedron(3),
+    "dodecahedron": lambda M, A: M.procedural.dodecahedron(3),
+    "icosahedron": lambda M, A: M.procedural.icosahedron("x", 2.0),
+    "cylinder": lambda M, A: M.procedural.cylinder(_some_vec(A, M), _some_vec(A, M) + M.Vec(0., 0., 1.), 1., 2.5),
+    "torus": lambda M, A: M.procedural.torus(3, 3.5),
+    "sphere_uv": lambda M, A: M.procedural.sphere_uv(3, 4.5),
+    "icosphere": lambda M, A: M.procedural.icosphere(2.0),
+    "sphere_fibonacci": lambda M, A: M.procedural.sphere_fibonacci(3, 1., True),
+    "ring": lambda M, A: M.procedural.ring(4.5, 0.1, False, 1),
+    "flat_ring": lambda M, A: M.procedural.flat_ring(2.5, 0.1),
+    "triangle": lambda M, A: M.procedural.triangle(_some_vec(A, M), "x"),
+    "quad": lambda M, A: M.procedural.quad(_some_vec(A, M), _some_vec(A, M), "x"),
+    "unit_grid": lambda M, A: M.procedural.unit_grid(3, 2.5, generate_uvs=True),
+    "unit_triangle": lambda M, A: M.procedural.unit_triangle(3, 2.5, generate_uvs=True),
+    "chain_of_vertices": lambda M, A: M.procedural.chain_of_vertices(np.zeros((2, 5))),
+    "vector_field": lambda M, A: M.procedural.vector_field(np.zeros((2, 3)), np.zeros((3, 3))),
+    "spherify_vertices": lambda M, A: M.procedural.spherify_vertices(np.zeros((2, 3)), 0.1, 1.5),
+    "cylindrify_edges": lambda M, A: M.procedural.cylindrify_edges(_some_obj(A, "mesh", M), 0.1, 2.5),
+    "dual_mesh": lambda M, A: M.procedural.dual_mesh(_some_obj(A, "mesh", M), "no-such-mode"),
+}
 
 
 def mesh_reader(m):
@@ -248,6 +314,16 @@ def label_args(case, ctx):
         ctx.label("int-typed-args")
     if case.get("defaults"):
         ctx.label("defaulted-centre-radius")
+    if case.get("far"):
+        ctx.label("far-from-origin")
+    if case.get("np_ints"):
+        ctx.label("numpy-int-parameters")
+    if case.get("wide"):
+        ctx.label("wide-resolution", "hazard-resolution" if case["wide"] == "hazard" else "random-wide-resolution")
+    if case.get("array_dtype"):
+        ctx.label("array-dtype=" + case["array_dtype"])
+    for k, v in sorted((case.get("config") or {}).items()):
+        ctx.label(f"config.{k}={v}")
 
 
 def classes():
@@ -322,6 +398,16 @@ def check_surface(ctx, pre, m, nV=None, nF=None, arity=None, chi=None, loops=Non
     if arity is not None:
         ar = sorted(set(len(f) for f in F))
         ctx.check(ar == [arity], pre + ":face-arity", f"face sizes {ar}, expected all {arity}")
+    E = index_rows(ctx, pre, m.edges, "edges")
+    if E is not None:
+        import mouette as M
+        ek = [key(e) for e in E]
+        if M.config.complete_edges_from_faces:
+            ctx.check(len(set(ek)) == len(ek) and set(ek) == ref.uedges, pre + ":edges",
+                      f"the edge container ({len(ek)} edges, {len(set(ek))} distinct) is not the set of the {len(ref.uedges)} face sides "
+                      f"(config.complete_edges_from_faces is True)")
+        else:
+            ctx.check(set(ek) <= ref.uedges, pre + ":edges", "the edge container holds pairs that are no face sides")
     bl = ref.border_loops()
     if not ctx.check(bl is not None, pre + ":manifold-orientation", "border is not a union of simple loops"):
         return None
@@ -340,6 +426,27 @@ def scale_of(*xs):
         if a.size:
             s = max(s, float(a.max()))
     return s if s > 0 else 1.0
+
+
+FAR_DIR = np.array([1.0, -1.0, 0.5])
+
+
+def sc_of(case, *xs):
+    """tolerance scale of a case: size of the data; for data placed far from the origin (case['far'] = offset magnitude)
+    the LOCAL size (offset removed) plus ~16 ulp of the offset expressed in units of TOL"""
+    m = float(case.get("far", 0.0) or 0.0)
+    if not m:
+        return scale_of(*xs)
+    loc = []
+    for x in xs:
+        a = np.asarray(x, dtype=float)
+        loc.append(a - m * FAR_DIR if a.ndim >= 1 and a.shape[-1] == 3 else a)
+    return scale_of(*loc) + 2e-6 * m
+
+
+def I(case, n):
+    """integer parameter as passed to the generator: python int, or a numpy integer scalar (class 'numpy-int-parameters')"""
+    return np.int32(n) if case.get("np_ints") else int(n)
 
 
 def check_close(ctx, sig, got, exp, scale, what, tol=TOL):
@@ -473,6 +580,62 @@ def distinct_points(src, n, sep=0.25, ints=False):
     return pts
 
 
+def _hazard_resolutions(lo=10, hi=256):
+    """resolutions at which n -> x/n -> x/(x/n) or (1/n)*n does not round-trip in float64 (x = 1, 2pi): the values at
+    which arange / linspace / floor based sampling of a period typically produces one sample too many or too few"""
+    out = []
+    for n in range(lo, hi + 1):
+        if any(x / (x / n) != n for x in (1.0, 2 * math.pi)) or (1.0 / n) * n != 1.0:
+            out.append(n)
+    return out
+
+
+HAZARD = _hazard_resolutions()
+
+
+def far_offset(src, S, ints=False):
+    """offset magnitude of the 'far from the origin' class (only at unit scale): 0 mostly, else 1e3 .. 1e6"""
+    if S != 1.0:
+        return 0.0
+    return float(src.choice([0.0] * 5 + [1e3, 1e5, 1e6]))
+
+
+def placed(pts, S, far):
+    return [[float(x * S + far * FAR_DIR[k]) for k, x in enumerate(p)] for p in pts]
+
+
+def config_excluded(case, cfg):
+    """switch values under which the UNCHANGED library already fails for this generator (reported as findings, not drawn):
+    dual_mesh (hence octahedron, dodecahedron) needs sorted neighbourhoods; loop subdivision (icosphere, spherify_vertices
+    with n >= 1) walks the completed edge set; a hexahedral cell cannot be prepared without completing its faces"""
+    gen = case.get("gen")
+    if "sort_neighborhoods" in cfg and gen in ("dual_mesh", "octahedron", "dodecahedron"):
+        return True
+    if "complete_edges_from_faces" in cfg and (gen == "icosphere" and case.get("n_refine", 0) >= 1 or
+                                               gen == "spherify_vertices" and case.get("n_subdiv", 0) >= 1):
+        return True
+    if "complete_faces_from_cells" in cfg and case.get("volume"):
+        return True
+    return False
+
+
+def common_flags(src, case):
+    """flags every case carries: library-wide config switches of the case and the form of integer parameters"""
+    flags = {"np_ints": src.choice([False] * 5 + [True])}
+    switches = [{}] * 6 + [{"sort_neighborhoods": False}, {"complete_edges_from_faces": False}, {"complete_faces_from_cells": False},
+                           {"display_duplicate_attribute_warning": True}, {"export_edges_in_obj": False}]
+    cfg = src.choice(switches)
+    flags["config"] = {} if config_excluded(case, cfg) else dict(cfg)
+    return flags
+
+
+def widen(src, n):
+    """a resolution: the lattice value mostly, sometimes an arbitrary value of a wide range; returns (value, class)"""
+    if src.choice([0] * 9 + [1]):
+        return src.integer(10, 300), "random"
+    return n, None
+
+
 def arg_class(src):
     """(uniform scale factor, integer-typed arguments): unit scale mostly, tiny / huge scale and integer Vec / arrays sometimes"""
     k = src.choice(["unit", "unit", "unit", "tiny", "huge", "int"])
@@ -501,7 +664,10 @@ def family_strategy(name):
 
     @st.composite
     def strat(draw):
-        return build(draw(st.sampled_from(lat)), HypSrc(draw))
+        src = HypSrc(draw)
+        case = build(draw(st.sampled_from(lat)), src)
+        case.update(common_flags(src, case))
+        return case
     return strat()
 
 
@@ -509,8 +675,9 @@ def family_strategy(name):
 
 def build_tet(p, src):
     S, ints = arg_class(src)
-    return {"gen": "tetrahedron", "P": scaled(distinct_points(src, 4, ints=ints), S), "volume": p[0], "explicit": p[1],
-            "scale": S, "int_args": ints}
+    far = far_offset(src, S)
+    return {"gen": "tetrahedron", "P": placed(distinct_points(src, 4, ints=ints), S, far), "volume": p[0], "explicit": p[1],
+            "scale": S, "int_args": ints, "far": far}
 
 
 def fn_tetrahedron(case, ctx, A):
@@ -531,7 +698,7 @@ def fn_tetrahedron(case, ctx, A):
     r = check_surface(ctx, pre, m, nV=4, nF=4, arity=3, chi=2, loops=0, comps=1, cls="VolumeMesh" if vol else "SurfaceMesh")
     V = r[0] if r else vertex_array(ctx, pre, m)
     if V is not None:
-        check_close(ctx, pre + ":corners", V, P, scale_of(P), "vertices are not the four requested points in order", 1e-12)
+        check_close(ctx, pre + ":corners", V, P, sc_of(case, P), "vertices are not the four requested points in order", 1e-12)
     if vol:
         if not check_type(ctx, pre, m, "VolumeMesh"):
             return
@@ -557,7 +724,8 @@ def build_hexa(p, src):
     if gen == "axis_aligned_cube":
         return case
     S, ints = arg_class(src)
-    case.update(scale=S, int_args=ints)
+    far = far_offset(src, S)
+    case.update(scale=S, int_args=ints, far=far)
     if gen == "hexahedron":
         # the combinatorial cube of the docstring diagram in an arbitrary (jittered, sheared, moved) configuration
         o = point(src)
@@ -565,9 +733,9 @@ def build_hexa(p, src):
         jit = [[src.real(-0.3, 0.3, nice=[0.0]) for _ in range(3)] for _ in range(8)]
         if ints:
             o, s, jit = [float(round(x)) for x in o], 2.0, [[0.0] * 3] * 8
-        case["P"] = scaled([[o[k] + s * (UNIT_CUBE[i][k] + jit[i][k]) for k in range(3)] for i in range(8)], S)
+        case["P"] = placed([[o[k] + s * (UNIT_CUBE[i][k] + jit[i][k]) for k in range(3)] for i in range(8)], S, far)
     else:
-        case["P"] = scaled(distinct_points(src, 4, ints=ints), S)
+        case["P"] = placed(distinct_points(src, 4, ints=ints), S, far)
     return case
 
 
@@ -594,7 +762,7 @@ def fn_hexahedron(case, ctx, A):
         corners = [P[0], P[0] + X, P[0] + X + Y, P[0] + Y, P[3], P[3] + X, P[3] + X + Y, P[3] + Y]
     if not ok:
         return
-    sc = scale_of(corners)
+    sc = sc_of(case, corners)
     if vol:
         if not check_type(ctx, pre, m, "VolumeMesh"):
             return
@@ -661,7 +829,9 @@ def centre_radius(src, defaults):
     c = center(src)
     if ints:
         c = [float(round(x)) for x in c]
-    return {"center": [x * S for x in c], "radius": float(radius(src) * S), "scale": S, "int_args": ints, "defaults": False}
+    far = far_offset(src, S)
+    return {"center": placed([c], S, far)[0], "radius": float(radius(src) * S), "scale": S, "int_args": ints, "defaults": False,
+            "far": far}
 
 
 def build_platonic(p, src):
@@ -704,7 +874,7 @@ def fn_platonic(case, ctx, A):
     if r is None:
         return
     V, F, ref = r
-    sc = scale_of(c, rad)
+    sc = sc_of(case, c, rad)
     d = np.linalg.norm(V - c, axis=1)
     ctx.check(float(d.max() - d.min()) <= TOL * sc, pre + ":on-sphere", f"vertices are not equidistant from the centre {c.tolist()}: distances in [{float(d.min())!r}, {float(d.max())!r}]")
     L = edge_lengths(V, ref)
@@ -750,8 +920,10 @@ def build_cylinder(p, src):
     else:
         ints = False
     P2 = [P1[k] + h * d[k] for k in range(3)]
-    return {"gen": "cylinder", "N": N, "fill_caps": caps, "axis": ax, "P1": [x * S for x in P1], "P2": [x * S for x in P2],
-            "radius": float(radius(src) * S), "scale": S, "int_args": ints}
+    far = far_offset(src, S)
+    N, wide = (N, "hazard") if N in HAZARD and N > 12 else widen(src, N)
+    return {"gen": "cylinder", "N": N, "fill_caps": caps, "axis": ax, "P1": placed([P1], S, far)[0], "P2": placed([P2], S, far)[0],
+            "radius": float(radius(src) * S), "scale": S, "int_args": ints, "far": far, "wide": wide}
 
 
 def check_tube_geometry(ctx, pre, V, idx, A, B, rad, N, sc, what=""):
@@ -787,7 +959,7 @@ def fn_cylinder(case, ctx, A):
     ctx.nontrivial(not caps)
     pre = "cylinder"
     ints = case.get("int_args")
-    ok, m = ctx.call(pre, M.procedural.cylinder, A.vec("P1", P1, ints), A.vec("P2", P2, ints), radius=rad, N=N, fill_caps=caps)
+    ok, m = ctx.call(pre, M.procedural.cylinder, A.vec("P1", P1, ints), A.vec("P2", P2, ints), radius=rad, N=I(case, N), fill_caps=caps)
     if not ok:
         return
     r = check_surface(ctx, pre, m, nV=2 * N + (2 if caps else 0), nF=4 * N if caps else 2 * N, arity=3,
@@ -795,7 +967,7 @@ def fn_cylinder(case, ctx, A):
     if r is None:
         return
     V, F, ref = r
-    sc = scale_of(P1, P2, rad)
+    sc = sc_of(case, P1, P2, rad)
     if caps:
         check_close(ctx, pre + ":cap-centres", V[2 * N:], [P1, P2], sc, "the two cap centres are not P1, P2")
     okg, at0, at1 = check_tube_geometry(ctx, pre, V, list(range(2 * N)), P1, P2, rad, N, sc)
@@ -820,8 +992,14 @@ def build_torus(p, src):
     S, _ = arg_class(src)
     R = src.real(0.5, 10.0, nice=[1.0])
     r = float(round(src.real(0.05, 0.9, nice=[0.3]) * R, 6))
+    wide = "hazard" if max(a, b) > 50 or (max(a, b) in HAZARD and min(a, b) == 3) else None
+    if wide is None and max(a, b) < 10:
+        if src.choice([0, 1]):
+            a, wide = widen(src, a)
+        else:
+            b, wide = widen(src, b)
     return {"gen": "torus", "major_segments": a, "minor_segments": b, "triangulate": tri, "major_radius": float(R * S),
-            "minor_radius": float(r * S), "scale": S}
+            "minor_radius": float(r * S), "scale": S, "wide": wide}
 
 
 def fn_torus(case, ctx, A):
@@ -832,14 +1010,14 @@ def fn_torus(case, ctx, A):
     label_args(case, ctx)
     ctx.nontrivial(a != b or tri)
     pre = "torus"
-    ok, m = ctx.call(pre, M.procedural.torus, a, b, R, r0, triangulate=tri)
+    ok, m = ctx.call(pre, M.procedural.torus, I(case, a), I(case, b), R, r0, triangulate=tri)
     if not ok:
         return
     r = check_surface(ctx, pre, m, nV=a * b, nF=a * b * (2 if tri else 1), arity=3 if tri else 4, chi=0, loops=0, comps=1)
     if r is None:
         return
     V, F, ref = r
-    sc = scale_of(R + r0)
+    sc = sc_of(case, R + r0)
     d = np.sqrt((np.hypot(V[:, 0], V[:, 1]) - R) ** 2 + V[:, 2] ** 2)
     ctx.check(float(np.max(np.abs(d - r0))) <= TOL * sc, pre + ":on-torus",
               f"distance to the core circle (radius {R}, plane z=0) in [{float(d.min())!r}, {float(d.max())!r}], requested minor radius {r0!r}")
@@ -853,7 +1031,14 @@ def fn_torus(case, ctx, A):
 # ================================================================================================ spheres
 
 def build_sphere_uv(p, src):
-    case = {"gen": "sphere_uv", "n_lat": p[0], "n_long": p[1]}
+    n_lat, n_long = p[0], p[1]
+    wide = "hazard" if (max(n_lat, n_long) in HAZARD and min(n_lat, n_long) <= 3) else None
+    if wide is None and max(n_lat, n_long) < 10:
+        if src.choice([0, 1]):
+            n_lat, wide = widen(src, n_lat)
+        else:
+            n_long, wide = widen(src, n_long)
+    case = {"gen": "sphere_uv", "n_lat": n_lat, "n_long": n_long, "wide": wide}
     case.update(centre_radius(src, p[2]))
     return case
 
@@ -868,9 +1053,9 @@ def fn_sphere_uv(case, ctx, A):
     ctx.nontrivial(n_lat != n_long)
     pre = "sphere_uv"
     if dflt:
-        ok, m = ctx.call(pre, M.procedural.sphere_uv, n_lat, n_long)
+        ok, m = ctx.call(pre, M.procedural.sphere_uv, I(case, n_lat), I(case, n_long))
     else:
-        ok, m = ctx.call(pre, M.procedural.sphere_uv, n_lat, n_long, center=A.vec("center", c, case.get("int_args")), radius=rad)
+        ok, m = ctx.call(pre, M.procedural.sphere_uv, I(case, n_lat), I(case, n_long), center=A.vec("center", c, case.get("int_args")), radius=rad)
     if not ok:
         return
     # vertex count pinned by tests/test_procedural.py::test_sphere_uv ("don't forget the poles")
@@ -878,7 +1063,7 @@ def fn_sphere_uv(case, ctx, A):
     if r is None:
         return
     V, F, ref = r
-    sc = scale_of(c, rad)
+    sc = sc_of(case, c, rad)
     d = np.linalg.norm(V - c, axis=1)
     ctx.check(float(np.max(np.abs(d - rad))) <= TOL * sc, pre + ":on-sphere", f"distance to the centre in [{float(d.min())!r}, {float(d.max())!r}], requested radius {rad!r}")
     used = sorted(set(v for f in F for v in f))
@@ -908,9 +1093,9 @@ def fn_icosphere(case, ctx, A):
     ctx.nontrivial(rad != 1.0 or bool(np.any(c != 0)))
     pre = "icosphere"
     if dflt:
-        ok, m = ctx.call(pre, M.procedural.icosphere, n)
+        ok, m = ctx.call(pre, M.procedural.icosphere, I(case, n))
     else:
-        ok, m = ctx.call(pre, M.procedural.icosphere, n, A.vec("center", c, case.get("int_args")), rad)
+        ok, m = ctx.call(pre, M.procedural.icosphere, I(case, n), A.vec("center", c, case.get("int_args")), rad)
     if not ok:
         return
     r = check_surface(ctx, pre, m, nV=10 * 4 ** n + 2, nF=20 * 4 ** n, arity=3, chi=2, loops=0, comps=1)
@@ -918,15 +1103,17 @@ def fn_icosphere(case, ctx, A):
         return
     V, F, ref = r
     d = np.linalg.norm(V - c, axis=1)
-    ctx.check(float(np.max(np.abs(d - rad))) <= TOL * scale_of(c, rad), pre + ":on-sphere", f"distance to the centre in [{float(d.min())!r}, {float(d.max())!r}], requested radius {rad!r}")
+    ctx.check(float(np.max(np.abs(d - rad))) <= TOL * sc_of(case, c, rad), pre + ":on-sphere", f"distance to the centre in [{float(d.min())!r}, {float(d.max())!r}], requested radius {rad!r}")
 
 
-FIB_LATTICE = [[n, s] for n in list(range(1, 41)) + [100, 300] for s in BOOL if n >= 4 or not s]
+FIB_LATTICE = ([[n, s] for n in list(range(1, 41)) + [100, 300] for s in BOOL if n >= 4 or not s] +
+               [[n, bool(n % 2)] for n in HAZARD if n > 40])
 
 
 def build_fibonacci(p, src):
     S, _ = arg_class(src)
-    return {"gen": "sphere_fibonacci", "n_pts": p[0], "build_surface": p[1], "radius": float(radius(src) * S), "scale": S}
+    n, wide = (p[0], "hazard") if p[0] > 40 else widen(src, p[0])
+    return {"gen": "sphere_fibonacci", "n_pts": n, "build_surface": p[1], "radius": float(radius(src) * S), "scale": S, "wide": wide}
 
 
 def fn_fibonacci(case, ctx, A):
@@ -936,7 +1123,7 @@ def fn_fibonacci(case, ctx, A):
     ctx.label(f"build_surface={surf}", "n<=8" if n <= 8 else "n>40" if n > 40 else "n>8")
     ctx.nontrivial(not surf or rad != 1.0)
     pre = "sphere_fibonacci"
-    ok, m = ctx.call(pre, M.procedural.sphere_fibonacci, n, radius=rad, build_surface=surf)
+    ok, m = ctx.call(pre, M.procedural.sphere_fibonacci, I(case, n), radius=rad, build_surface=surf)
     if not ok:
         return
     if surf:
@@ -953,7 +1140,7 @@ def fn_fibonacci(case, ctx, A):
             return
         ctx.check(len(V) == n, pre + ":vertex-count", f"|V| = {len(V)}, requested n_pts = {n}")
     d = np.linalg.norm(V, axis=1)
-    ctx.check(float(np.max(np.abs(d - rad))) <= TOL * scale_of(rad), pre + ":on-sphere", f"distance to the origin in [{float(d.min())!r}, {float(d.max())!r}], requested radius {rad!r}")
+    ctx.check(float(np.max(np.abs(d - rad))) <= TOL * sc_of(case, rad), pre + ":on-sphere", f"distance to the origin in [{float(d.min())!r}, {float(d.max())!r}], requested radius {rad!r}")
     if n >= 2:
         D = np.linalg.norm(V[:, None, :] - V[None, :, :], axis=2) + np.eye(n) * 1e9
         ctx.check(float(D.min()) > 1e-6 * rad, pre + ":distinct", f"two sample points coincide (min distance {float(D.min())!r})")
@@ -969,7 +1156,8 @@ def defect(src):
 
 
 def build_ring(p, src):
-    return {"gen": "ring", "N": p[0], "open": p[1], "n_cover": p[2], "defect": defect(src)}
+    N, wide = (p[0], "hazard") if p[0] > 10 else widen(src, p[0])
+    return {"gen": "ring", "N": N, "open": p[1], "n_cover": p[2], "defect": defect(src), "wide": wide}
 
 
 def fn_ring(case, ctx, A):
@@ -979,8 +1167,9 @@ def fn_ring(case, ctx, A):
         defect = defect + 4e-4 if defect + 4e-4 <= MAX_DEFECT else defect - 4e-4
     ctx.label(f"open={opn}", f"n_cover={nc}", "defect=0" if defect == 0 else "defect=max" if defect >= MAX_DEFECT else "defect>pi" if defect > math.pi else "defect<=pi")
     ctx.nontrivial(opn or nc != 1)
+    label_args(case, ctx)
     pre = "ring"
-    ok, m = ctx.call(pre, M.procedural.ring, N, defect, opn, nc)
+    ok, m = ctx.call(pre, M.procedural.ring, I(case, N), defect, opn, I(case, nc))
     if not ok:
         return
     K = N * nc
@@ -1001,7 +1190,8 @@ def fn_ring(case, ctx, A):
 
 
 def build_flat_ring(p, src):
-    return {"gen": "flat_ring", "N": p[0], "n_cover": p[1], "defect": defect(src)}
+    N, wide = (p[0], "hazard") if p[0] > 10 else widen(src, p[0])
+    return {"gen": "flat_ring", "N": N, "n_cover": p[1], "defect": defect(src), "wide": wide}
 
 
 def fn_flat_ring(case, ctx, A):
@@ -1011,8 +1201,9 @@ def fn_flat_ring(case, ctx, A):
         defect = defect + 4e-4 if defect + 4e-4 <= MAX_DEFECT else defect - 4e-4
     ctx.label(f"n_cover={nc}", "N<3" if N < 3 else "N>=3", "defect=0" if defect == 0 else "defect>0")
     ctx.nontrivial(nc != 1)
+    label_args(case, ctx)
     pre = "flat_ring"
-    ok, m = ctx.call(pre, M.procedural.flat_ring, N, defect, nc)
+    ok, m = ctx.call(pre, M.procedural.flat_ring, I(case, N), defect, I(case, nc))
     if not ok:
         return
     K = N * nc
@@ -1046,8 +1237,9 @@ FLAT_LATTICE = [["triangle", False, False], ["quad", False, False], ["quad", Fal
 
 def build_flat(p, src):
     S, ints = arg_class(src)
-    return {"gen": p[0], "triangulate": p[1], "P": scaled(distinct_points(src, 3, ints=ints), S), "explicit": p[2],
-            "scale": S, "int_args": ints}
+    far = far_offset(src, S)
+    return {"gen": p[0], "triangulate": p[1], "P": placed(distinct_points(src, 3, ints=ints), S, far), "explicit": p[2],
+            "scale": S, "int_args": ints, "far": far}
 
 
 def fn_flat(case, ctx, A):
@@ -1059,7 +1251,7 @@ def fn_flat(case, ctx, A):
     args = A.vecs("P", P, case.get("int_args"))
     ctx.nontrivial(tri)
     pre = gen
-    sc = scale_of(P)
+    sc = sc_of(case, P)
     if gen == "triangle":
         ok, m = ctx.call(pre, M.procedural.triangle, *args)
         if not ok:
@@ -1117,7 +1309,14 @@ def check_uvs(ctx, pre, m, V, want):
 
 
 def build_grid(p, src):
-    return {"gen": "unit_grid", "nu": p[0], "nv": p[1], "triangulate": p[2], "generate_uvs": p[3]}
+    nu, nv = p[0], p[1]
+    wide = "hazard" if max(nu, nv) > 13 else None
+    if wide is None and max(nu, nv) < 10:
+        if src.choice([0, 1]):
+            nu, wide = widen(src, nu)
+        else:
+            nv, wide = widen(src, nv)
+    return {"gen": "unit_grid", "nu": nu, "nv": nv, "triangulate": p[2], "generate_uvs": p[3], "wide": wide}
 
 
 def fn_unit_grid(case, ctx, A):
@@ -1125,8 +1324,9 @@ def fn_unit_grid(case, ctx, A):
     nu, nv, tri, uvs = int(case["nu"]), int(case["nv"]), bool(case["triangulate"]), bool(case["generate_uvs"])
     ctx.label("equal" if nu == nv else "nu<nv" if nu < nv else "nu>nv", f"triangulate={tri}", f"generate_uvs={uvs}")
     ctx.nontrivial(nu != nv or tri or uvs)
+    label_args(case, ctx)
     pre = "unit_grid"
-    ok, m = ctx.call(pre, M.procedural.unit_grid, nu, nv, triangulate=tri, generate_uvs=uvs)
+    ok, m = ctx.call(pre, M.procedural.unit_grid, I(case, nu), I(case, nv), triangulate=tri, generate_uvs=uvs)
     if not ok:
         return
     cells = (nu - 1) * (nv - 1)
@@ -1141,7 +1341,7 @@ def fn_unit_grid(case, ctx, A):
 
 
 def build_unit_triangle(p, src):
-    return {"gen": "unit_triangle", "nu": p[0], "nv": p[1], "generate_uvs": p[2]}
+    return {"gen": "unit_triangle", "nu": p[0], "nv": p[1], "generate_uvs": p[2], "wide": "hazard" if p[0] > 13 else None}
 
 
 def fn_unit_triangle(case, ctx, A):
@@ -1149,8 +1349,9 @@ def fn_unit_triangle(case, ctx, A):
     nu, nv, uvs = int(case["nu"]), int(case["nv"]), bool(case["generate_uvs"])
     ctx.label("equal" if nu == nv else "nu<nv" if nu < nv else "nu>nv", f"generate_uvs={uvs}")
     ctx.nontrivial(nu != nv or uvs)
+    label_args(case, ctx)
     pre = "unit_triangle"
-    ok, m = ctx.call(pre, M.procedural.unit_triangle, nu, nv, generate_uvs=uvs)
+    ok, m = ctx.call(pre, M.procedural.unit_triangle, I(case, nu), I(case, nv), generate_uvs=uvs)
     if not ok:
         return
     n = nu if nu == nv else None     # |V| = n(n+1)/2 pinned by test_unit_triangle; no formula is documented for nu != nv
@@ -1183,15 +1384,21 @@ def build_polyline(p, src):
     gen = p[0]
     S, ints = arg_class(src)
 
+    dt = src.choice(["int16", "int32", "int64"]) if ints else src.choice(["float64"] * 4 + ["float32"]) if S == 1.0 else "float64"
+
     def rows(n, K):
-        return [[float(round(coord(src))) if ints else float(coord(src) * S) for _ in range(K)] for _ in range(n)]
+        if ints:
+            return [[float(round(coord(src))) for _ in range(K)] for _ in range(n)]
+        if dt == "float32":        # coordinates that float32 represents exactly
+            return [[float(round(coord(src) * 8) / 8) for _ in range(K)] for _ in range(n)]
+        return [[float(coord(src) * S) for _ in range(K)] for _ in range(n)]
     if gen == "chain_of_vertices":
         _, n, loop, K, ex = p
-        return {"gen": gen, "loop": loop, "dim": K, "points": rows(n, K), "explicit": ex, "scale": S, "int_args": ints}
+        return {"gen": gen, "loop": loop, "dim": K, "points": rows(n, K), "explicit": ex, "scale": S, "int_args": ints, "array_dtype": dt}
     _, n, K, dflt = p
     org = rows(n, K)
     vecs = rows(n, K)
-    return {"gen": gen, "dim": K, "origins": org, "vectors": vecs, "scale": S, "int_args": ints,
+    return {"gen": gen, "dim": K, "origins": org, "vectors": vecs, "scale": S, "int_args": ints, "array_dtype": dt,
             "length_mult": None if dflt else src.real(-5.0, 5.0, nice=[1.0, 0.5, -2.0, 0.0])}
 
 
@@ -1207,6 +1414,8 @@ def fn_polylines(case, ctx, A):
     ctx.label(gen, f"{gen}:dim={case['dim']}")
     label_args(case, ctx)
     ints = case.get("int_args")
+    dt = case.get("array_dtype")
+    f32 = 1e-6 if dt == "float32" else TOL        # results computed in the precision of the given arrays
     if gen == "chain_of_vertices":
         loop = bool(case["loop"])
         pts = np.array(case["points"], dtype=float)
@@ -1214,16 +1423,16 @@ def fn_polylines(case, ctx, A):
         ctx.label(f"loop={loop}")
         ctx.nontrivial(loop)
         if loop or case["explicit"]:
-            ok, m = ctx.call(pre, M.procedural.chain_of_vertices, A.arr("vertices", pts, ints), loop=loop)
+            ok, m = ctx.call(pre, M.procedural.chain_of_vertices, A.arr("vertices", pts, ints, dt), loop=loop)
         else:
-            ok, m = ctx.call(pre, M.procedural.chain_of_vertices, A.arr("vertices", pts, ints))
+            ok, m = ctx.call(pre, M.procedural.chain_of_vertices, A.arr("vertices", pts, ints, dt))
         if not ok or not check_type(ctx, pre, m, "PolyLine"):
             return
         V = vertex_array(ctx, pre, m)
         E = index_rows(ctx, pre, m.edges, "edges")
         if V is None or E is None:
             return
-        check_close(ctx, pre + ":vertices", V, pad3(pts), scale_of(pts), "vertices are not the given positions in order", 1e-12)
+        check_close(ctx, pre + ":vertices", V, pad3(pts), sc_of(case, pts), "vertices are not the given positions in order", 1e-12)
         exp = [(i, i + 1) for i in range(n - 1)] + ([(0, n - 1)] if loop else [])
         ctx.check(sorted(key(e) for e in E) == sorted(exp), pre + ":edges", f"edges {E}; a {'closed' if loop else 'open'} chain of {n} vertices has {exp}")
         return
@@ -1231,10 +1440,10 @@ def fn_polylines(case, ctx, A):
     mult = case["length_mult"]
     ctx.nontrivial(mult is not None and mult != 1.0)
     if mult is None:
-        ok, m = ctx.call(pre, M.procedural.vector_field, A.arr("origins", org, ints), A.arr("vectors", vecs, ints))
+        ok, m = ctx.call(pre, M.procedural.vector_field, A.arr("origins", org, ints, dt), A.arr("vectors", vecs, ints, dt))
         mult = 1.0
     else:
-        ok, m = ctx.call(pre, M.procedural.vector_field, A.arr("origins", org, ints), A.arr("vectors", vecs, ints), length_mult=float(mult))
+        ok, m = ctx.call(pre, M.procedural.vector_field, A.arr("origins", org, ints, dt), A.arr("vectors", vecs, ints, dt), length_mult=float(mult))
     if not ok or not check_type(ctx, pre, m, "PolyLine"):
         return
     V = vertex_array(ctx, pre, m)
@@ -1245,7 +1454,7 @@ def fn_polylines(case, ctx, A):
     exp = np.empty((2 * n, 3))
     exp[0::2] = pad3(org)
     exp[1::2] = pad3(org) + float(mult) * pad3(vecs)
-    check_close(ctx, pre + ":vertices", V, exp, scale_of(exp), "vertices are not origin_i, origin_i + length_mult * vector_i")
+    check_close(ctx, pre + ":vertices", V, exp, sc_of(case, exp), "vertices are not origin_i, origin_i + length_mult * vector_i", f32)
     ctx.check([key(e) for e in E] == [(2 * i, 2 * i + 1) for i in range(n)], pre + ":edges", f"edges {E}, expected one segment (2i, 2i+1) per vector")
 
 
@@ -1254,7 +1463,8 @@ def fn_polylines(case, ctx, A):
 TRANSFORM_LATTICE = ([["spherify_vertices", n, k, form, dflt] for n in range(1, 5) for k in (0, 1, 2)
                       for form in ("pointcloud", "array", "polyline") for dflt in BOOL] +
                      [["cylindrify_edges", shape, N, dflt] for shape in ("path", "cycle", "star", "triangle_mesh", "segments")
-                      for N in range(3, 9) for dflt in BOOL])
+                      for N in range(3, 9) for dflt in BOOL] +
+                     [["cylindrify_edges", "path", N, False] for N in HAZARD if N <= 128])
 
 
 def build_transform(p, src):
@@ -1264,12 +1474,16 @@ def build_transform(p, src):
         S, ints = arg_class(src)
         if dflt:
             S = 1.0        # the default radius 1e-2 is absolute
-        return {"gen": gen, "points": scaled(distinct_points(src, n, sep=0.5, ints=ints), S), "n_subdiv": k, "form": form,
-                "radius": None if dflt else float(src.real(0.01, 3.0) * S), "scale": S, "int_args": ints}
+        far = far_offset(src, S)
+        return {"gen": gen, "points": placed(distinct_points(src, n, sep=0.5, ints=ints), S, far), "n_subdiv": k, "form": form,
+                "radius": None if dflt else float(src.real(0.01, 3.0) * S), "scale": S, "int_args": ints, "far": far,
+                "array_dtype": (src.choice(["int32", "int64"] if far else ["int16", "int32", "int64"]) if ints else "float64") if form == "array" else None}
     _, shape, N, dflt = p
     n = src.integer(3, 6)
     S, ints = arg_class(src)
-    pts = scaled(distinct_points(src, n, sep=0.5, ints=ints), S)
+    far = far_offset(src, S)
+    pts = placed(distinct_points(src, n, sep=0.5, ints=ints), S, far)
+    N, wide = (N, "hazard") if N > 12 else widen(src, N)
     if shape == "path":
         E = [[i, i + 1] for i in range(n - 1)]
     elif shape == "cycle":
@@ -1281,7 +1495,7 @@ def build_transform(p, src):
     else:
         E = []
     return {"gen": gen, "shape": shape, "points": pts, "edges": E, "N": N, "radius": None if dflt else src.real(0.01, 0.5),
-            "scale": S, "int_args": ints}
+            "scale": S, "int_args": ints, "far": far, "wide": wide}
 
 
 def match_components(ctx, pre, V, ref, n_expected, fits, what):
@@ -1313,10 +1527,10 @@ def fn_transformations(case, ctx, A):
         elif form == "polyline":
             inp = A.obj("points", lambda: polyline_from(P.tolist(), [(i, i + 1) for i in range(len(P) - 1)]), mesh_reader)
         else:
-            inp = A.arr("points", P, case.get("int_args"))
+            inp = A.arr("points", P, case.get("int_args"), case.get("array_dtype"))
         kw = {} if rad is None else {"radius": float(rad)}
         rad = 1e-2 if rad is None else float(rad)
-        ok, m = ctx.call(pre, M.procedural.spherify_vertices, inp, n_subdiv=k, **kw)
+        ok, m = ctx.call(pre, M.procedural.spherify_vertices, inp, n_subdiv=I(case, k), **kw)
         if not ok:
             return
         n = len(P)
@@ -1324,7 +1538,7 @@ def fn_transformations(case, ctx, A):
         if r is None:
             return
         V, F, ref = r
-        sc = scale_of(P, rad)
+        sc = sc_of(case, P, rad)
 
         def fits(j, comp):
             d = np.linalg.norm(V[comp] - P[j], axis=1)
@@ -1337,22 +1551,26 @@ def fn_transformations(case, ctx, A):
     ctx.nontrivial(True)
     if shape == "triangle_mesh":
         inp = A.obj("mesh", lambda: surface_from(P[:3].tolist(), [[0, 1, 2]]), mesh_reader)
-        E = [(0, 1), (1, 2), (0, 2)]
+        E = [(0, 1), (1, 2), (0, 2)] if M.config.complete_edges_from_faces else []     # the input surface then has no edges
     else:
         E = [tuple(e) for e in case["edges"]]
         inp = A.obj("mesh", lambda: polyline_from(P.tolist(), E), mesh_reader)
     kw = {} if rad is None else {"radius": float(rad)}
     rad = 5e-2 if rad is None else float(rad)
-    ok, m = ctx.call(pre, M.procedural.cylindrify_edges, inp, N=N, **kw)
+    ok, m = ctx.call(pre, M.procedural.cylindrify_edges, inp, N=I(case, N), **kw)
     if not ok:
         return
     nE = len(E)
+    if nE == 0:
+        if check_type(ctx, pre, m, "SurfaceMesh"):
+            ctx.check(len(m.vertices) == 0 and len(m.faces) == 0, pre + ":empty", "a mesh without edges must give an empty surface")
+        return
     r = check_surface(ctx, pre, m, nV=2 * N * nE, nF=2 * N * nE, arity=3, chi=0, loops=2 * nE, comps=nE)
     if r is None:
         return
     V, F, ref = r
     L = float(np.mean([np.linalg.norm(P[a] - P[b]) for a, b in E]))
-    sc = scale_of(P)
+    sc = sc_of(case, P)
 
     def fits(j, comp):
         a, b = E[j]
@@ -1401,8 +1619,10 @@ def dual_case(draw):
     # circumcentres are only defined for non-degenerate triangles
     circ_ok = is_tri and G.min_angle_deg(s["V"], s["F"]) >= 10.0
     modes = [None, "barycenter", "Barycenter", "circumcenter", "circumcenter"] if circ_ok else [None, "barycenter", "BARYCENTER"]
-    return {"gen": "dual_mesh", "V": s["V"], "F": s["F"], "tags": s["tags"], "mode": draw(st.sampled_from(modes)),
+    case = {"gen": "dual_mesh", "V": s["V"], "F": s["F"], "tags": s["tags"], "mode": draw(st.sampled_from(modes)),
             "mode2": draw(st.sampled_from(modes))}
+    case.update(common_flags(HypSrc(draw), case))
+    return case
 
 
 def fn_dual(case, ctx, A):
@@ -1417,6 +1637,7 @@ def fn_dual(case, ctx, A):
     for t in case.get("tags", []):
         if t.startswith(("base=", "genus=", "comps=", "sum=", "union=")) or t in ("tri", "quad", "mixed34", "polygon"):
             ctx.label(t)
+    label_args(case, ctx)
     ctx.label("mode=" + str(mode), f"modes={str(case['mode']).lower()}->{str(case.get('mode2')).lower()}")
     ctx.nontrivial(mode not in (None, "barycenter") or any(len(f) != 3 for f in Fp))
     pre = "dual_mesh"
@@ -1441,7 +1662,7 @@ def fn_dual(case, ctx, A):
             return
     if mode is None or mode.lower() == "barycenter":
         bary = np.array([Vp[list(f)].mean(axis=0) for f in Fp])
-        check_close(ctx, pre + ":positions", V, bary, scale_of(Vp), "dual vertex f is not the barycentre of primal face f")
+        check_close(ctx, pre + ":positions", V, bary, sc_of(case, Vp), "dual vertex f is not the barycentre of primal face f")
     # the primal mesh is left as it was
     V2 = vertex_array(ctx, pre, prim)
     F2 = index_rows(ctx, pre, prim.faces, "faces")
@@ -1455,16 +1676,21 @@ FAMILIES.update({
     "tetrahedron": (product(BOOL, BOOL), build_tet, fn_tetrahedron),
     "hexahedra": (HEXA_LATTICE, build_hexa, fn_hexahedron),
     "platonic": (PLATONIC_LATTICE, build_platonic, fn_platonic),
-    "cylinder": (product(range(3, 13), BOOL, AXES) + product((20, 50), BOOL, ("z", "random")), build_cylinder, fn_cylinder),
-    "torus": (product(range(3, 10), range(3, 10), BOOL) + product((50, 30, 10), (30, 20, 10), BOOL), build_torus, fn_torus),
-    "sphere_uv": (product(range(2, 10), range(3, 10), BOOL) + product((30, 20), (50, 30, 20), BOOL), build_sphere_uv, fn_sphere_uv),
+    "cylinder": (product(range(3, 13), BOOL, AXES) + product((20, 50), BOOL, ("z", "random")) +
+                 [[n, bool(n % 2), "random"] for n in HAZARD], build_cylinder, fn_cylinder),
+    "torus": (product(range(3, 10), range(3, 10), BOOL) + product((50, 30, 10), (30, 20, 10), BOOL) +
+              [[n, 3, bool(n % 2)] for n in HAZARD] + [[3, n, bool(n % 2)] for n in HAZARD], build_torus, fn_torus),
+    "sphere_uv": (product(range(2, 10), range(3, 10), BOOL) + product((30, 20), (50, 30, 20), BOOL) +
+                  [[n, 3, False] for n in HAZARD] + [[2, n, False] for n in HAZARD], build_sphere_uv, fn_sphere_uv),
     "icosphere": (product(range(0, 4), BOOL), build_icosphere, fn_icosphere),
     "sphere_fibonacci": (FIB_LATTICE, build_fibonacci, fn_fibonacci),
-    "ring": (product(range(3, 11), BOOL, (1, 2, 3)), build_ring, fn_ring),
-    "flat_ring": (product(range(1, 11), (1, 2, 3)), build_flat_ring, fn_flat_ring),
+    "ring": (product(range(3, 11), BOOL, (1, 2, 3)) + [[n, bool(n % 2), 1] for n in HAZARD], build_ring, fn_ring),
+    "flat_ring": (product(range(1, 11), (1, 2, 3)) + [[n, 1] for n in HAZARD], build_flat_ring, fn_flat_ring),
     "triangle_quad": (FLAT_LATTICE, build_flat, fn_flat),
-    "unit_grid": (product(range(2, 10), range(2, 10), BOOL, BOOL) + product((10, 13), (10, 13), BOOL, BOOL), build_grid, fn_unit_grid),
-    "unit_triangle": (product(range(2, 10), range(2, 10), BOOL) + [[10, 10, False], [10, 10, True], [13, 13, True]], build_unit_triangle, fn_unit_triangle),
+    "unit_grid": (product(range(2, 10), range(2, 10), BOOL, BOOL) + product((10, 13), (10, 13), BOOL, BOOL) +
+                  [[n, 2, bool(n % 2), False] for n in HAZARD] + [[2, n, bool(n % 2), True] for n in HAZARD], build_grid, fn_unit_grid),
+    "unit_triangle": (product(range(2, 10), range(2, 10), BOOL) + [[10, 10, False], [10, 10, True], [13, 13, True]] +
+                      [[n, n, False] for n in HAZARD if n <= 64], build_unit_triangle, fn_unit_triangle),
     "polylines": (POLYLINE_LATTICE, build_polyline, fn_polylines),
     "transformations": (TRANSFORM_LATTICE, build_transform, fn_transformations),
 })
@@ -1482,7 +1708,13 @@ def full_lattice():
         lat, build, _ = FAMILIES[name]
         for p in lat:
             for k in range(REAL_VARIANTS):
-                case = build(p, RngSrc(random.Random(zlib.crc32(repr((name, p, k)).encode()))))
+                src = RngSrc(random.Random(zlib.crc32(repr((name, p, k)).encode())))
+                case = build(p, src)
+                case.update(common_flags(src, case))
+                if k == 0:
+                    case.update(np_ints=False, config={})      # variant 0 of every lattice point: library defaults
+                elif case.get("wide") == "hazard":
+                    continue                                   # the large resolutions once each
                 case["family"] = name
                 js = repr(case)
                 if js not in seen:          # families without real parameters give one case per lattice point
@@ -1503,7 +1735,7 @@ _Q = {"tetrahedron": 60, "hexahedra": 160, "platonic": 60, "cylinder": 240, "tor
       "sphere_fibonacci": 160, "ring": 200, "flat_ring": 120, "triangle_quad": 60, "unit_grid": 320, "unit_triangle": 200,
       "polylines": 160, "transformations": 120}
 
-SUBCHECKS = [SubCheck(name, family_strategy(name), FAMILIES[name][2], quick=4 * _Q[name], thorough=6 * _Q[name]) for name in _Q] + [
+SUBCHECKS = [SubCheck(name, family_strategy(name), FAMILIES[name][2], quick=3 * _Q[name], thorough=6 * _Q[name]) for name in _Q] + [
     SubCheck("dual_mesh", dual_case(), two_calls(fn_dual), quick=1000, thorough=2000),
     # bare sampled_from over a finite list: Hypothesis never repeats a choice sequence, so a budget >= len(LATTICE_CASES)
     # enumerates the whole lattice in every thorough shard (it stops by itself once the list is exhausted)
